@@ -18,6 +18,8 @@ def jobs(pid, tier, seed):
     out = [{"kind": "cfg", "seed": seed * 1000003 + i, "nvar": 4 if tier == "quick" else len(VARIANTS)} for i in range(n)]
     out += [{"kind": "list", "seed": seed * 1000003 + 500000 + i} for i in range(n)]
     out += [{"kind": "bulk_list", "n": nn, "allow_list": a} for nn in (1010, 1200) for a in (1, 0)]
+    for name, params in scenarios.directed_for(pid, tier):
+        out.append({"kind": "directed", "name": name, "params": params})
     return out
 
 
@@ -38,6 +40,10 @@ def run_job(pid, job, acc):
     if job["kind"] == "bulk_list":
         from .histcheck import run_bulk_list
         return run_bulk_list(pid, job, acc)
+    if job["kind"] == "directed":
+        for case, hist, cfg, opts in scenarios.build(pid, job["name"], job["params"]):
+            run_hist(acc, hist, cfg, 0, case, nontrivial_keys=("list_answer",), keep_sample=(len(acc.samples) < 1), **opts)
+        return
     s = job["seed"]
     hist = generate(s, **GEN)
     if job["kind"] == "list":
